@@ -1,28 +1,28 @@
 SPECIFICATION Spec
 CONSTANTS
   MaxOps = 4
-  MaxDepth = 2
-  MCKinds = {"vec", "arrayvec", "slice", "sliceref"}
-  Caps = {0, 1, 3}
+  MaxDepth = 3
+  MCKinds = {"vec", "arrayvec", "slice", "sliceref", "raw"}
+  Caps = {0, 3}
   Len0s = {0, 1}
-  Sizes = {0, 1, 2, 4}
-  ExtExact = {0, 4}
-  ExtNoHint = {2}
-  ExtUnder = {1, 4}
-  ExtOver = {1}
-  AdvSizes = {1}
-  ScrSizes = {1}
-  Avails = {0, 2}
-  CapAts = {0, 1, 5}
+  Sizes = {0, 2}
+  ExtExact = {}
+  ExtNoHint = {}
+  ExtUnder = {}
+  ExtOver = {}
+  AdvSizes = {}
+  ScrSizes = {}
+  Avails = {2}
+  CapAts = {0}
   CapAts2 = {}
-  RelCaps = {}
-  OverKinds = {"plus1", "total"}
-  TouchCaps = {1}
+  RelCaps = {0, 1, 2}
+  OverKinds = {}
+  TouchCaps = {}
   TouchOn = TRUE
   CloseInitOn = TRUE
-  UnwindOn = TRUE
-  ViaSet = {}
-  ViaCaps = {}
+  UnwindOn = FALSE
+  ViaSet = {"manual"}
+  ViaCaps = {1}
   Readers = {}
   RdAvails = {}
   RdCaps = {}
@@ -33,8 +33,8 @@ CONSTANTS
   PkSizes = {}
   PkInts = {}
   PkNegInts = {}
-  GrowBy = {}
-  RawDirtyNs = {}
+  GrowBy = {2}
+  RawDirtyNs = {1}
 VIEW View
 INVARIANTS InitLeSpare Nested Contents OwnerBytes Untouched
 PROPERTIES Frame FrameTop WriteBack Refusal SliceReported RefusedCounts UserCounts
